@@ -229,7 +229,7 @@ def compile_cxx(src, obj, extra_flags=(), fuzz=False):
     """Compile one TU if it (or any header it read last time) changed."""
     dep = obj + ".d"
     deps = _depfile_deps(dep)
-    flagsig = " ".join(extra_flags) + (" fuzz" if fuzz else "")
+    flagsig = " ".join(extra_flags) + (" fuzz" if fuzz else "") + " mirror=" + MIRROR  # dep files hold absolute mirror paths
     sigfile = obj + ".flags"
     oldsig = open(sigfile).read() if os.path.exists(sigfile) else None
     if deps is not None and oldsig == flagsig and not _needs(obj, deps + [src]):
